@@ -17,6 +17,7 @@ out = ["# Seeded changes and which checks catch them", "",
 for s, p, f, n, c in rows:
     out.append("| %s | %s | %s | %s | %s |" % (s, p, ", ".join(f), n.replace('|', '\\|'), c.replace('|', '\\|')))
 out += ["", "## Seeds that were dropped", "",
+        "- C01 round 5, mutation H (the shared true/false constants retyped by a named i1 type): the `fix:` commit 1a2641c rewrote the function it patched (named i1 literals no longer go through the shared constants); the patch no longer applies.",
         "- C13 round 4, mutation E (AssignIDs no longer fills the cached types under the function lock): its only trigger was the lazily rewritten alloca type, which the `fix:` commit e6d655a removed; its demonstration passes on the current tree.",
         "- C08 round 4, mutation F (declaration parameter numbers validated against the position in the list): made obsolete by the `fix:` commit b65575c, which validates them correctly; the patch no longer applies.",
         "- C10 round 2, mutation A (float printed in decimal whenever exact as a double): after the `fix:` commit 58a4c9d (exact decimal printing) the change no longer alters any printed literal's value under LLVM's reading; its demonstration passes, so it is not a violation any more and was not kept.",
